@@ -45,7 +45,8 @@ def uriPool : List String := [
   "http://example.com/data-types", "http://example.com/x-types", "http://example.com/2024/types/",
   "http://example.com/2", "http://example.com/123abc", "http://example.com/svc/", "https://example.com/Types",
   "http://example.com/TYPES", "http://example.com/ty", "http://example.com/t", "http://example.com/common",
-  "http://example.com/core/com", "http://tempuri.org/", "http://example.com/ns#frag", "http://example.com/q?x=1"]
+  "http://example.com/core/com", "http://tempuri.org/", "http://example.com/ns#frag", "http://example.com/q?x=1",
+  "http://example.com/svc", "http://example.com/2024/types", "http://example.com/Schemas/Typ", "http://example.com/api/Types"]
 
 def words : List String := [
   "item", "order", "user name", "http request", "id", "type", "self", "value", "data 2", "x", "address line",
@@ -82,7 +83,7 @@ def rustPrimNames : List String := ["String", "Vec", "Option", "Box", "Rc", "Sel
 
 /-- a fresh type-like name in namespace `ns`: its PascalCase image is new there (NamesSeparated) and is
     not a name the prelude of every generated file already uses -/
-def collideWords : List String := ["item", "order", "user name", "type", "data 2", "status", "int", "date", "long", "boolean"]
+def collideWords : List String := ["item", "order", "user name", "type", "data 2", "status", "int", "date", "long", "boolean", "code", "country code"]
 
 def pickWord : M String := do
   if (← get).smallPool then pick collideWords else pick words
@@ -137,7 +138,9 @@ structure Plan where
 
 def genFacets (isInt : Bool) : M SFacets := do
   let asChild ← chance 2 3
-  let plus ← chance 1 6
+  let style ← below 6
+  let plus := style == 0
+  let pad := style == 1
   if isInt then
     let lo ← below 20
     let span ← below 30
@@ -145,7 +148,7 @@ def genFacets (isInt : Bool) : M SFacets := do
     let ma ← if (← chance 1 2) then pure (some (Int.ofNat (lo + span) - 5)) else pure none
     let me ← if mi.isNone && (← chance 1 3) then pure (some (Int.ofNat lo - 6)) else pure none
     let mx ← if ma.isNone && (← chance 1 3) then pure (some (Int.ofNat (lo + span))) else pure none
-    pure { minInclusive := mi, maxInclusive := ma, minExclusive := me, maxExclusive := mx, asChild := asChild, plus := plus }
+    pure { minInclusive := mi, maxInclusive := ma, minExclusive := me, maxExclusive := mx, asChild := asChild, plus := plus, pad := pad }
   else
     let r ← below 4
     let len ← if r == 0 then pure (some (← below 5)) else pure none
@@ -158,7 +161,7 @@ def genFacets (isInt : Bool) : M SFacets := do
           es := es ++ [styled (← pick words) (← below 6)]
         pure es
       else pure []
-    pure { length := len, minLength := minl, maxLength := maxl, enumeration := enums, asChild := asChild, plus := plus }
+    pure { length := len, minLength := minl, maxLength := maxl, enumeration := enums, asChild := asChild, plus := plus, pad := pad }
 
 /-- a type for a member of a type of rank `rank` in namespace `ns`; `repeating` lifts the rank limit -/
 def genMemberType (p : Plan) (ns rank : Nat) (repeating : Bool) (simpleOnly : Bool) : M TypeRef := do
